@@ -333,8 +333,9 @@ def map(
             zmin + 0.5 * zspacing, zmax - 0.5 * zspacing, resolution["z"]
         )
     else:
+        # A single layer at depth zero: any positive depth step will do
         zmin = 0.0
-        zspacing = zmax - zmin
+        zspacing = 0.5 * (xspacing + yspacing)
         zcenters = [0.0]
 
     xg, yg, zg = np.meshgrid(xcenters, ycenters, zcenters, indexing="ij")
